@@ -5,7 +5,7 @@ META = {
     'level': 'proof',
     'technique': 'Lean 4 theorems (findings and plugin statuses emitted in the documented field-by-field order, a permutation of the collected ones; owed calls invariant under arbitrary rearrangement of every directory; sorted key sequence identical; CmpPackages strict total order; roots = concatenation) + '
                  'correspondence under permuted ReadDir orders and 1-3 roots',
-    'design_ref': 'DESIGN.md §5 C08',
+    'design_ref': 'DESIGN.md §4 (section of C08), §5 (defects), §7 (seeded changes)',
     'text': 'Kernel-checked: for arbitrary rearrangements of every directory listing the specification owes the same calls as a multiset, the scans\' package lists are permutations and '
             'the emitted sorted key sequences are identical; output is always sorted; the 4-key comparison is a strict total order (SortFunc precondition); scanning several roots is the '
             'concatenation of scanning each alone. Tied to the Go engine by scanning each generated tree under 5 listing orders (random x3, sorted, reverse) and comparing the results.',
